@@ -15,7 +15,7 @@ from .. import observe as ob
 from . import c05
 
 PROP = "C10"
-RUNS = {"quick": 4000, "thorough": 250000}
+RUNS = {"quick": 4000, "thorough": 60000}
 WALL = {"quick": 280, "thorough": 3500}
 RULE = ("one run = C05 workload + 2-10 bursts of read-only calls; frame condition per call; distinct = "
         "distinct (state digest, query) pairs")
